@@ -395,3 +395,15 @@ def add_closure_nt(spec, g, menu='small'):
     a, b = g.sample(idx, 2)
     spec['rules'].append({'lhs': 'S', 'nodes': nodes, 'ext': list(range(len(st))), 'edges': [{'label': 'T', 'att': [a, b], 'id': None}]})
     return spec
+
+
+def constant_factors(spec, g, p=0.3):
+    """some terminals become constant factors stored as stride-0 expansions of one number (as `tensor.expand(...)`
+    or the JSON "expand" field give)"""
+    for n, t in spec['terms'].items():
+        shape = sizes_of(spec, t['type'])
+        if shape and all(s >= 2 for s in shape) and t.get('pattern') is None and g.random() < p:
+            c = round(0.1 + 0.5 * g.random(), 3)
+            t['weights'] = nested([c] * numel(shape), list(shape))
+            t['pattern'] = {'physical': c, 'expand': list(shape), 'vaxes': list(range(len(shape))), 'default': 0.0}
+    return spec
